@@ -27,6 +27,7 @@ type CliWorld struct {
 	cliSock  *UDPSock
 	stream   bool     // the client speaks TURN over a stream (its Conn is a STUNConn over simnet TCP)
 	cliConn  *TCPConn // client end of that stream
+	srvInMu  sync.Mutex
 	cliOut, cliIn []byte // not yet deframed bytes written / read by the client on the stream
 	cliOutBad bool
 	cliFrames int
@@ -368,14 +369,20 @@ func (w *CliWorld) start() {
 		cc, sc := w.Net.newConnPair("client", "scriptsrv", &net.TCPAddr{IP: w.cliAddr.IP, Port: w.cliAddr.Port}, &net.TCPAddr{IP: w.SrvAddr.IP, Port: w.SrvAddr.Port})
 		w.cliConn, w.srvConn = cc, sc
 		sc.SetScripted(func(_ *TCPConn, b []byte) {
+			// (arrival events run on goroutines of their own in the free-running race pass)
+			w.srvInMu.Lock()
 			w.srvIn = append(w.srvIn, b...)
+			var frames [][]byte
 			for {
 				n, ok := refFrameLen(w.srvIn)
 				if !ok || n > len(w.srvIn) {
-					return
+					break
 				}
-				frame := append([]byte(nil), w.srvIn[:n]...)
+				frames = append(frames, append([]byte(nil), w.srvIn[:n]...))
 				w.srvIn = w.srvIn[n:]
+			}
+			w.srvInMu.Unlock()
+			for _, frame := range frames {
 				w.onServerDatagram(&Dgram{From: w.cliAddr, To: w.SrvAddr, Payload: frame})
 			}
 		}, nil)
@@ -917,6 +924,8 @@ func runCliWorld(t *testing.T, k *Kernel, p *Plan, rec *RunRecord) {
 	}
 	rec.LockSites = lockSites()
 	fillRecord(rec, k, reason)
+	w.mu.Lock()
 	rec.Requests = len(w.srvLog)
 	rec.States = len(w.calls)
+	w.mu.Unlock()
 }
